@@ -253,4 +253,134 @@ theorem blocks_leading_empty_line_rel {R : Tok → Tok → Prop} (hR : KindPres 
   rw [hY.length_eq]
   exact sim_allBlocks hR _ hY
 
+/-! ### from the source text to the token streams -/
+
+/-- empty, or closed by a newline token -/
+def EndsNL (ts : List Tok) : Prop := ts = [] ∨ ∃ T nl, ts = T ++ [nl] ∧ nl.kind = .newline
+
+theorem IsLine.endsNL {l : List Tok} (h : IsLine l) : EndsNL l := by
+  obtain ⟨body, nl, rfl, _, hn⟩ := h
+  exact Or.inr ⟨body, nl, rfl, hn⟩
+
+theorem EndsNL.append_left (a : List Tok) {b : List Tok} (h : EndsNL b) (hb : b ≠ []) : EndsNL (a ++ b) := by
+  rcases h with h | ⟨T, nl, rfl, hn⟩
+  · exact absurd h hb
+  · exact Or.inr ⟨a ++ T, nl, by simp, hn⟩
+
+theorem lines_endsNL (L : List (List Tok)) (hL : ∀ l ∈ L, IsLine l) : EndsNL L.flatten := by
+  induction L with
+  | nil => exact Or.inl rfl
+  | cons l L ih =>
+    have hl : IsLine l := hL l (by simp)
+    have ih' := ih (fun x hx => hL x (by simp [hx]))
+    simp only [List.flatten_cons]
+    by_cases he : L.flatten = []
+    · rw [he, List.append_nil]; exact hl.endsNL
+    · exact ih'.append_left l he
+
+theorem spellOK_newline_next (cs : CharSpec) (text : List Char) (n1 n2 : Option Char)
+    (h : spellOK cs .newline text n1 = true) : spellOK cs .newline text n2 = true := by
+  cases text with
+  | nil => simp [spellOK] at h
+  | cons c r => simpa [spellOK] using h
+
+theorem render_append (a b : List Tok) : render (a ++ b) = render a ++ render b := by
+  simp [render]
+
+theorem render_head_append (cs : CharSpec) {A : List Tok} (h : WellSpelled cs A) (hA : A ≠ []) (B : List Tok) :
+    (render (A ++ B)).head? = (render A).head? := by
+  cases A with
+  | nil => exact absurd rfl hA
+  | cons t r =>
+    simp only [WellSpelled, wellSpelled, Bool.and_eq_true] at h
+    have hne := spellOK_nonempty h.1
+    cases ht : t.text with
+    | nil => exact absurd ht hne
+    | cons c cs' => simp [render, ht]
+
+theorem wellSpelled_append_nl (cs : CharSpec) (T : List Tok) (nl : Tok) (hn : nl.kind = .newline) (B : List Tok)
+    (h1 : WellSpelled cs (T ++ [nl])) (h2 : WellSpelled cs B) : WellSpelled cs (T ++ [nl] ++ B) := by
+  induction T with
+  | nil =>
+    simp only [List.nil_append, WellSpelled, wellSpelled, Bool.and_eq_true, List.singleton_append] at h1 ⊢
+    refine ⟨?_, h2⟩
+    rw [hn] at h1 ⊢
+    exact spellOK_newline_next cs _ _ _ h1.1
+  | cons t T ih =>
+    simp only [List.cons_append, WellSpelled, wellSpelled, Bool.and_eq_true] at h1 ⊢
+    refine ⟨?_, ih h1.2⟩
+    have := render_head_append cs (A := T ++ [nl]) h1.2 (by simp) B
+    rw [List.append_assoc] at this ⊢
+    rw [this]
+    exact h1.1
+
+/-- the lexer restarts after a newline token -/
+theorem lexFrom_append_nl (cs : CharSpec) (o : Nat) (u v : List Char) (h : EndsNL (lexFrom cs o u)) :
+    lexFrom cs o (u ++ v) = lexFrom cs o u ++ lexFrom cs (o + utf8Len u) v := by
+  rcases h with h | ⟨T, nl, hT, hn⟩
+  · have hu : u = [] := by
+      have := lexFrom_tile cs o u
+      rw [h] at this
+      simpa using this.symm
+    subst hu
+    simp [lexFrom, utf8Len]
+  · have hws : WellSpelled cs (lexFrom cs o u ++ lexFrom cs (o + utf8Len u) v) := by
+      rw [hT]
+      exact wellSpelled_append_nl cs T nl hn _ (hT ▸ lexFrom_wellSpelled cs o u) (lexFrom_wellSpelled cs _ v)
+    have hch : Chain o (lexFrom cs o u ++ lexFrom cs (o + utf8Len u) v) := by
+      rw [blocks_chain_append]
+      refine ⟨lexFrom_chain cs o u, ?_⟩
+      rw [lexFrom_tile]
+      exact lexFrom_chain cs _ v
+    have hr : render (lexFrom cs o u ++ lexFrom cs (o + utf8Len u) v) = u ++ v := by
+      rw [render_append]
+      unfold render
+      rw [lexFrom_tile, lexFrom_tile]
+    have := lexFrom_render_chain cs o _ hws hch
+    rw [hr] at this
+    exact this
+
+/-- tokens with the same kind and text (at any offsets) -/
+def SameKT (a b : Tok) : Prop := (a.kind, a.text) = (b.kind, b.text)
+
+theorem sameKT_kindPres : KindPres SameKT := fun a b h => by
+  unfold SameKT at h
+  exact (Prod.mk.inj h).1
+
+theorem LRel.refl_of {β : Type} {R : β → β → Prop} (hR : ∀ a, R a a) (l : List β) : LRel R l l := by
+  induction l with
+  | nil => exact .nil
+  | cons a l ih => exact .cons (hR a) ih
+
+/-- lexing the same text at another offset: same kinds and texts -/
+theorem lexFrom_offset_sameKT (cs : CharSpec) (o' o : Nat) (x : List Char) :
+    LRel SameKT (lexFrom cs o' x) (lexFrom cs o x) := by
+  have h := lexFrom_render cs o' (lexFrom cs o x) (lexFrom_wellSpelled cs o x)
+  have hr : render (lexFrom cs o x) = x := lexFrom_tile cs o x
+  rw [hr] at h
+  exact LRel.of_map_eq _ _ h
+
+/-- **an extra blank / comment-only line in the source.**  `u` = complete lines, `e0` and `e`
+    = source lines that lex to empty lines, `x` = the rest: the blocks of `u e0 e x` are those of
+    `u e0 x` up to offsets. -/
+theorem blocks_extra_blank_line_source (cs : CharSpec) (u e0 e x : List Char) (L : List (List Tok))
+    (hu : lex cs u = L.flatten) (hL : ∀ l ∈ L, IsLine l)
+    (hE0 : EmptyLine (lexFrom cs (utf8Len u) e0))
+    (hE : EmptyLine (lexFrom cs (utf8Len u + utf8Len e0) e)) :
+    LRel (LRel SameKT) (blocksOf (lex cs (u ++ (e0 ++ (e ++ x))))) (blocksOf (lex cs (u ++ (e0 ++ x)))) := by
+  unfold lex at hu ⊢
+  have hnu : EndsNL (lexFrom cs 0 u) := by rw [hu]; exact lines_endsNL L hL
+  have e1 : lexFrom cs 0 (u ++ (e0 ++ (e ++ x))) =
+      L.flatten ++ (lexFrom cs (utf8Len u) e0 ++ (lexFrom cs (utf8Len u + utf8Len e0) e ++
+        lexFrom cs (utf8Len u + utf8Len e0 + utf8Len e) x)) := by
+    rw [lexFrom_append_nl cs 0 u _ hnu, hu, Nat.zero_add,
+      lexFrom_append_nl cs _ e0 _ hE0.1.endsNL, lexFrom_append_nl cs _ e _ hE.1.endsNL]
+  have e2 : lexFrom cs 0 (u ++ (e0 ++ x)) =
+      L.flatten ++ (lexFrom cs (utf8Len u) e0 ++ lexFrom cs (utf8Len u + utf8Len e0) x) := by
+    rw [lexFrom_append_nl cs 0 u _ hnu, hu, Nat.zero_add, lexFrom_append_nl cs _ e0 _ hE0.1.endsNL]
+  rw [e1, e2]
+  apply blocks_extra_empty_line_rel sameKT_kindPres L hL _ _ _ hE0 hE
+  have hrefl : ∀ l : List Tok, LRel SameKT l l := LRel.refl_of (fun _ => rfl)
+  exact (hrefl _).append ((hrefl _).append (lexFrom_offset_sameKT cs _ _ x))
+
 end Cook
